@@ -14,9 +14,18 @@ mkdir -p $ISO/root/sim $ISO/root/replays
 rsync -a --delete --exclude target --exclude build.log /verif/sim/ $ISO/root/sim/
 sed -i "s#path = \"/repo\"#path = \"$ISO/repo\"#" $ISO/root/sim/Cargo.toml
 cp /verif/known_findings.json $ISO/root/; rsync -a /verif/findings $ISO/root/
+BINDIR=$ISO/root/sim/target/release
+if [ "${VARIANT:-shipped}" = wide ]; then
+  # same capacities as the thorough tier's wide build
+  export SMOLTCP_IFACE_MAX_ADDR_COUNT=5 SMOLTCP_IFACE_NEIGHBOR_CACHE_COUNT=3 SMOLTCP_REASSEMBLY_BUFFER_COUNT=4 \
+         SMOLTCP_DNS_MAX_SERVER_COUNT=3 SMOLTCP_DNS_MAX_RESULT_COUNT=4 SMOLTCP_ASSEMBLER_MAX_SEGMENT_COUNT=32 \
+         SMOLTCP_IFACE_MAX_ROUTE_COUNT=4 SMOLTCP_IFACE_MAX_PREFIX_COUNT=2 SMOLTCP_IFACE_MAX_MULTICAST_GROUP_COUNT=8
+  export CARGO_TARGET_DIR=$ISO/root/sim/target-wide
+  BINDIR=$ISO/root/sim/target-wide/release
+fi
 ( cd $ISO/root/sim && CARGO_NET_OFFLINE=true cargo build --release --offline > $ISO/build.log 2>&1 ) || { echo "build failed"; tail -5 $ISO/build.log; git -C $ISO/repo checkout -- .; exit 2; }
 for c in "$@"; do
-  out=$(cd $ISO/root && VERIF_ROOT=$ISO/root VERIF_EVIDENCE_DIR=$ISO/evidence VERIF_BUDGET_S=$budget ./sim/target/release/simcheck run "$c" --tier quick 2>&1)
+  out=$(cd $ISO/root && VERIF_ROOT=$ISO/root VERIF_EVIDENCE_DIR=$ISO/evidence VERIF_BUDGET_S=$budget $BINDIR/simcheck run "$c" --tier quick 2>&1)
   rc=$?
   v=$(echo "$out" | grep -m1 'violation in run' | sed 's/^\[[A-Z0-9]*\] //' | cut -c1-260)
   echo "$c rc=$rc $v"
